@@ -103,11 +103,21 @@ def premise_distinct_codes(ctx, prog, rule):
     ctx.ob(rule, "distinct-codes", not dups and len(codes) >= 10, "%d type codes, duplicates: %s" % (len(codes), dups or "none"))
 
 
+def premise_reassembler(ctx, prog, rule):
+    from .c16 import r16_4_invariant
+    from .. import extract, facts
+    # the reassembler lives in stun-agent: use the agent facts whatever configuration the caller analyses
+    p2 = prog if any(b.path == "stun_agent::StunPacketDecoder::decode" for b in prog.bodies.values()) else \
+        facts.Program(extract.extract("agent"), label="agent")
+    r16_4_invariant(ctx, p2, rule=rule)
+
+
 # machine-checked premises of reviewed budget entries: `requires` text in anchors/panic_budget.json -> checker
 PREMISES = {
     "is_removable_character accepts only code points < 0x80": premise_removable_ascii,
     "range test in ErrorCode::new and ErrorCode::decode": premise_error_code,
     "C01 R1.2": premise_distinct_codes,
+    "reassembler invariant (C16 R16.4)": premise_reassembler,
 }
 
 
@@ -115,7 +125,7 @@ def check_premises(ctx, prog, rule, required):
     """every budget entry that was used and names a premise gets that premise evaluated in the same check"""
     prule = rule + "p"
     ctx.rule(prule, "premises of the reviewed budget entries used by %s are themselves decided (ASCII-only removable characters; "
-                    "ErrorCode range invariant; pairwise distinct attribute codes)" % rule)
+                    "ErrorCode range invariant; pairwise distinct attribute codes; the reassembler's class invariant)" % rule)
     done = getattr(ctx, "_premises_done", set())
     for req in sorted(required):
         if (prule, req) in done:
